@@ -533,7 +533,8 @@ func (p *Program) Run() (returnModel Model, returnErr error) {
 	p.handlers = channelHandlers{}
 	cmds := make(chan Cmd)
 	p.errs = make(chan error)
-	p.finished = make(chan struct{}, 1)
+	p.finished = make(chan struct{})
+	defer close(p.finished)
 
 	defer p.cancel()
 
@@ -763,9 +764,6 @@ func (p *Program) shutdown(kill bool) {
 	}
 
 	_ = p.restoreTerminalState()
-	if !kill {
-		p.finished <- struct{}{}
-	}
 }
 
 // recoverFromPanic recovers from a panic, prints the stack trace, and restores
@@ -845,9 +843,9 @@ func (p *Program) RestoreTerminal() error {
 //
 // If the altscreen is active no output will be printed.
 func (p *Program) Println(args ...interface{}) {
-	p.msgs <- printLineMessage{
+	p.Send(printLineMessage{
 		messageBody: fmt.Sprint(args...),
-	}
+	})
 }
 
 // Printf prints above the Program. It takes a format template followed by
@@ -859,7 +857,7 @@ func (p *Program) Println(args ...interface{}) {
 //
 // If the altscreen is active no output will be printed.
 func (p *Program) Printf(template string, args ...interface{}) {
-	p.msgs <- printLineMessage{
+	p.Send(printLineMessage{
 		messageBody: fmt.Sprintf(template, args...),
-	}
+	})
 }
